@@ -295,6 +295,19 @@ func c10Check(r *c10Run, i int) (id, msg string, insideCall bool, interrupted st
 			}
 		}
 	}
+	// (b') X's own envelopes handed out before the stop were openable on X (its message store reads every own
+	// entry back through the secret store): they still are
+	for idx := range r.recs {
+		if rec := &r.recs[idx]; rec.step.Op == "seal" && rec.ok && rec.ja <= i {
+			o, err := vOpen(X, r.g, rec.env, vCID(rec.env))
+			if err != nil {
+				return "own-envelope-lost", fmt.Sprintf("X's own envelope with counter %d, handed out before the stop at journal index %d, cannot be opened by X after restart: %v", rec.ctr, i, err), insideCall, interrupted
+			}
+			if !bytes.Equal(o.Payload, []byte("from-X")) {
+				return "wrong-payload", fmt.Sprintf("X's own envelope with counter %d opens to other content after restart", rec.ctr), insideCall, interrupted
+			}
+		}
+	}
 	// (c) envelopes sealed after restart do not share a counter with envelopes returned before the crash,
 	// and the receiver opens all of them
 	type sealed struct {
